@@ -108,6 +108,94 @@ def reject_site(d, text, exc, T):
     return site
 
 
+SETOPS = ('Union', 'Intersect', 'Except')
+QUERYISH = ('Select', 'Union', 'Intersect', 'Except', 'Identifier', 'Join', 'NativeQuery', 'Parameter', 'Data')
+
+
+def tree_tags(T, d):
+    """Tags that separate the root causes of round-trip failures (computed from the parsed tree only)."""
+    from vf.oracles.struct import walk
+    out = set()
+    lexcls = _LEX[d]
+
+    def lexes_as(text):
+        try:
+            return [t.type for t in lexcls().tokenize(text)]
+        except Exception:
+            return None
+
+    for n in walk(T):
+        cn = type(n).__name__
+        mod = type(n).__module__
+        if n is not T and cn not in ('TableColumn', 'Latest', 'Variable') and (
+                mod.startswith('mindsdb_sql.parser.dialects.mindsdb.') or
+                mod.rsplit('.', 1)[-1] in ('show', 'drop', 'set', 'use', 'describe', 'explain', 'alter_table', 'delete',
+                                           'update', 'insert', 'create', 'commit_transaction', 'rollback_transaction',
+                                           'start_transaction')):
+            out.add('embedded:statement')
+        if cn == 'Interval':
+            out.add('node:Interval')
+        elif cn in SETOPS:
+            if n is not T:
+                out.add('setop:inner')
+            if type(n.left).__name__ in SETOPS or type(n.right).__name__ in SETOPS:
+                out.add('setop:nested')
+            for sub in (n.left, n.right):
+                if getattr(sub, 'cte', None) or getattr(sub, 'using', None) or getattr(sub, 'mode', None) \
+                        or getattr(sub, 'limit', None) is not None or getattr(sub, 'order_by', None) \
+                        or getattr(sub, 'offset', None) is not None or getattr(sub, 'parentheses', False):
+                    out.add('setop:operand-with-clauses')
+            if getattr(n, 'cte', None) or getattr(n, 'using', None):
+                out.add('setop:own-clauses')
+        elif cn in ('Function', 'WindowFunction') and isinstance(getattr(n, 'op', None), str):
+            if not re.fullmatch(r'[A-Za-z_][A-Za-z_0-9]*', n.op) or lexes_as(n.op) in (['SELECT'], ['FROM']) \
+                    or (n.op.upper() != n.op and lexes_as('`%s`' % n.op) == ['ID'] and lexes_as(n.op) != ['ID']
+                        and n.op in ('select', 'from', 'where', 'group', 'order', 'limit', 'as', 'on', 'and', 'or', 'not')):
+                out.add('func:name-needs-quote')
+        elif cn == 'Select':
+            if getattr(n, 'using', None):
+                out.add('select:using')
+            for lim in (n.limit, n.offset):
+                if lim is not None and not (type(lim).__name__ == 'Constant' and type(lim.value) is int):
+                    out.add('limit:nonint')
+            if n.mode:
+                out.add('select:mode')
+            if n.offset is not None and n.limit is None:
+                out.add('select:offset-without-limit')
+            ft = n.from_table
+            stack = [ft]
+            while stack:
+                x = stack.pop()
+                if x is None:
+                    continue
+                if type(x).__name__ == 'Join':
+                    stack += [x.left, x.right]
+                elif type(x).__name__ not in QUERYISH:
+                    out.add('from:statement')
+            for t in n.targets or []:
+                if type(t).__name__ in ('Select',) + SETOPS and not t.parentheses:
+                    out.add('target:bare-select')
+        elif cn == 'WindowFunction':
+            if type(getattr(n, 'function', None)).__name__ != 'Function':
+                out.add('window:nonfunction')
+        elif cn == 'Identifier':
+            for i, p_ in enumerate(n.parts):
+                if isinstance(p_, str):
+                    if '`' in p_:
+                        out.add('ident:backquote-in-part')
+                    lt = lexes_as(p_)
+                    if lt is not None and len(lt) == 1 and lt[0] not in ('ID',):
+                        out.add('ident:nonid-token')   # keyword / number spelled part
+                elif i < len(n.parts) - 1:
+                    out.add('ident:star-middle')
+            if len(n.parts) > 1 and n is getattr(T, 'alias', None):
+                out.add('alias:multipart')
+        al = getattr(n, 'alias', None)
+        if al is not None and type(al).__name__ == 'Identifier' and len(al.parts) > 1:
+            out.add('alias:multipart')
+    return sorted(out)
+
+
 def tags(sql):
     t = []
     if '\\' in sql: t.append('text:backslash')
@@ -117,6 +205,19 @@ def tags(sql):
     if '`' in sql: t.append('text:backquote')
     if '"' in sql: t.append('text:dquote')
     return t
+
+
+class LazyTags:
+    def __init__(self, T, d):
+        self.T, self.d, self.v = T, d, None
+
+    def get(self):
+        if self.v is None:
+            try:
+                self.v = tree_tags(self.T, self.d)
+            except Exception as e:
+                self.v = ['tagger-error:' + type(e).__name__]
+        return self.v
 
 
 def judge(case, col):
@@ -136,10 +237,10 @@ def judge(case, col):
     stmt = type(T).__name__
     out = []
     cfg['stmt'] = stmt
-    ft = []
+    ft = LazyTags(T, d)
 
     def rec(kind, site, detail):
-        out.append(findings.record(kind, site, ft, cfg, detail, sql))
+        out.append(findings.record(kind, site, ft.get(), cfg, detail, sql))
 
     st0 = struct(T)
     ncls = node_classes(T)
@@ -204,14 +305,14 @@ def judge(case, col):
 
 
 @st.composite
-def cases(draw, pool='lite'):
+def cases(draw, pool='lite', tame=True):
     d = draw(st.sampled_from(corpus.DIALECTS))
     gg = grammar.get(d)
     mode = draw(st.sampled_from(['grammar', 'grammar', 'grammar', 'mut-corpus', 'mut-grammar']))
     if mode == 'grammar':
-        toks = draw(gg.sentence(pool=pool))
+        toks = draw(gg.sentence(pool=pool, tame=tame))
     else:
-        base = draw(st.sampled_from(_TOK[d])) if mode == 'mut-corpus' else draw(gg.sentence(pool=pool))
+        base = draw(st.sampled_from(_TOK[d])) if mode == 'mut-corpus' else draw(gg.sentence(pool=pool, tame=tame))
         kind, toks = draw(mutate.mutation(base, gg.all_lexemes(pool)))
     return {'dialect': d, 'sql': ' '.join(toks), 'origin': mode}
 
